@@ -22,7 +22,7 @@ func init() { register("C12", runC12, replayC12) }
 // ---- specification (written from the property text) ----
 
 type vEvent struct {
-	Kind int    `json:"kind"` // 0 dir, 1 file, 2 delete
+	Kind int    `json:"kind"` // 0 dir, 1 file, 2 delete, 3 modified dir, 4 modified file
 	Path string `json:"path"`
 }
 
@@ -65,7 +65,7 @@ func (s *specState) accept(e vEvent) bool {
 		return false
 	}
 	s.last, s.any = p, true
-	if e.Kind == 0 {
+	if e.Kind == 0 || e.Kind == 3 {
 		s.dirs[p] = true
 	}
 	return true
@@ -73,12 +73,15 @@ func (s *specState) accept(e vEvent) bool {
 
 func evInfo(e vEvent) (fsutil.ChangeKind, os.FileInfo) {
 	mode := uint32(0644)
-	if e.Kind == 0 {
+	if e.Kind == 0 || e.Kind == 3 {
 		mode = uint32(os.ModeDir | 0755)
 	}
 	k := fsutil.ChangeKindAdd
 	if e.Kind == 2 {
 		k = fsutil.ChangeKindDelete
+	}
+	if e.Kind >= 3 {
+		k = fsutil.ChangeKindModify // what the differ emits for an entry whose metadata or content changed
 	}
 	return k, &fsutil.StatInfo{Stat: &types.Stat{Path: e.Path, Mode: mode}}
 }
@@ -174,7 +177,7 @@ func c12Alphabet(tier string) []vEvent {
 	}
 	var out []vEvent
 	for _, p := range paths {
-		for k := 0; k < 3; k++ {
+		for k := 0; k < 5; k++ {
 			out = append(out, vEvent{Kind: k, Path: p})
 		}
 	}
@@ -184,10 +187,12 @@ func c12Alphabet(tier string) []vEvent {
 // c12DotAlphabet: names that begin with dots without being "." or ".." (volume layouts such as ..data/), at the
 // first level and below a directory, next to the genuine escapes.
 func c12DotAlphabet(tier string) []vEvent {
-	paths := []string{"..", "../a", "..a", "..a/b", "..a/..", "..a/..b", "...", ".../a", ".a", ".a/b", "a", "a/..b", "a/..b/c", "a/...", "a/.b"}
+	paths := []string{"..", "../a", "..a", "..a/b", "..a/..", "..a/..b", "...", ".../a", ".a", ".a/b", "a", "a/..b", "a/..b/c", "a/...", "a/.b",
+		// first bytes that sort before '.' and before '/'
+		"-a", "-a/b", "+", "+/x", "a/-b", "a/-b/c"}
 	var out []vEvent
 	for _, p := range paths {
-		for k := 0; k < 3; k++ {
+		for k := 0; k < 5; k++ {
 			out = append(out, vEvent{Kind: k, Path: p})
 		}
 	}
